@@ -84,6 +84,8 @@ type Call struct {
 	View         string // the request as the first filter saw it (after de-tunnelling)
 	thresholdSel, threshold, queryLen, damageSel int
 	wantStatus   int // a deliberately damaged request must be answered with this status
+	wantDupReject bool // duplicate keys: the client must refuse before sending
+	superset     bool // the (Byzantine) server mentioned a key that was never requested
 }
 
 //go:norace
@@ -410,7 +412,13 @@ func (w *World) batchReply(call *Call, ft reflect.Type, in []reflect.Value) []re
 			results.SetMapIndex(k, g.NonNil(results.Type().Elem()))
 		}
 	}
+	w.byzantine(call, resp, keys)
 	return []reflect.Value{resp, reflect.Zero(errorType)}
+}
+
+func genErrorResponseLite(st int32) *common.ErrorResponse {
+	m := "byzantine"
+	return &common.ErrorResponse{Status: &st, Message: &m}
 }
 
 func sortedKeys(m reflect.Value) []reflect.Value {
